@@ -4,7 +4,7 @@ from .. import cfg
 from ..conds import facts_at, truth
 from ..effects import _tsv
 from ..facts import keyname, AnchorLost
-from ..flow import flow, deps, deep_strip, strip, show, mentions, fold
+from ..flow import infeasible, flow, deps, deep_strip, strip, show, mentions, fold
 from .util import call_sites
 
 ICAUSE = "signal_hook::low_level::siginfo::ICause"
@@ -130,10 +130,27 @@ def rule_a(ctx):
     res = cpaths.outcomes(F.c_ast, "sighook_signal_cause")
     if not res:
         raise AnchorLost("C classifier sighook_signal_cause: no return paths found")
-    A_CODE = "(ROW.native == info.si_code)"
-    A_ANY = "(-1 == ROW.signal)"
-    A_SIG = "(ROW.signal == info.si_signo)"
-    rowres = [r for r in res if r[1] == "ROW.translated"]
+    # the row's fields by role (whatever they are called): the one returned, the one compared with si_code, the one compared with si_signo
+    rets = {r[1] for r in res if r[1].startswith("ROW.")}
+    atoms_all = {a for r in res for a, p in r[0]}
+
+    def field_vs(what):
+        fs = set()
+        for a in atoms_all:
+            mm = re.match(r"^\((.+) == (.+)\)$", a)
+            if mm and what in (mm.group(1), mm.group(2)):
+                o = mm.group(2) if mm.group(1) == what else mm.group(1)
+                if o.startswith("ROW."):
+                    fs.add(o)
+        return fs
+    cf, sf = field_vs("info.si_code"), field_vs("info.si_signo")
+    if len(rets) != 1 or len(cf) != 1 or len(sf) != 1:
+        raise AnchorLost("C classifier: row fields by role (returned %s / compared with si_code %s / with si_signo %s)" % (sorted(rets), sorted(cf), sorted(sf)))
+    RET, CF, SF = rets.pop(), cf.pop(), sf.pop()
+    A_CODE = "(%s == %s)" % tuple(sorted([CF, "info.si_code"]))
+    A_ANY = "(%s == %s)" % tuple(sorted(["-1", SF]))
+    A_SIG = "(%s == %s)" % tuple(sorted([SF, "info.si_signo"]))
+    rowres = [r for r in res if r[1] == RET]
 
     def matched(conds):
         pos = {a for a, p in conds if p}
@@ -188,7 +205,7 @@ def rule_a(ctx):
     unk = [r for r in res if r[2] is not None and unknown and r[2] == unknown[0] and not [a for a, p in r[0] if p]]
     ctx.check(len(unknown) == 1 and bool(unk), rid, "fallthrough-unknown", "when no row matches the result is the Unknown discriminant (%s)" % unknown, None,
               [(r[1], r[0]) for r in res])
-    extra = [{"value": r[1], "line": r[3]} for r in res if not (r[1] == "ROW.translated" or (r[2] is not None and unknown and r[2] == unknown[0]))]
+    extra = [{"value": r[1], "line": r[3]} for r in res if not (r[1] == RET or (r[2] is not None and unknown and r[2] == unknown[0]))]
     ctx.check(not extra, rid, "c-returns-only-table-or-unknown", "the C classifier returns nothing but a matched row's code or the Unknown code (no catch-all class "
               "for unlisted si_code values)", None, {"other_results": extra, "why": "e.g. treating every negative si_code as 'queued' makes SI_TIMER/SI_ASYNCIO records "
                                                      "report a timer id as a process id"})
@@ -213,46 +230,81 @@ def rule_c(ctx, disc):
                   "false exactly for the classes for which the kernel fills no pid/uid (sigaction(2))", floor=20)
     fr = F.one(name_re=r"^<%s as core::convert::From<%s>>::from$" % (re.escape(CAUSE), re.escape(ICAUSE)), what="From<ICause> for Cause")
     ctx.fn(fr)
-    sw = [b for b in range(fr.nblocks()) if fr.term(b)["k"] == "switch"]
-    if len(sw) != 1:
-        raise AnchorLost("From<ICause>: single switch on the discriminant")
-    t = fr.term(sw[0])
+    from .. import inline
+    from .nf import keep_for
+    from ..conds import switch_edges
 
-    def produced(bb):
-        """variant names assigned to the return place along the straight-line region starting at bb"""
-        names = []
-        seen = set()
-        while bb not in seen:
-            seen.add(bb)
-            for s in fr.stmts(bb):
-                if s["k"] == "assign" and s["r"]["k"] == "aggregate" and s["r"].get("ak") == "adt":
-                    names.append((s["r"]["def"].split("::")[-1], s["r"]["variant"]))
-            nx = fr.succ(bb, False)
-            if len(nx) != 1:
-                break
-            bb = nx[0]
-        return names
-    mapped = {}
-    for v, b in t["vals"]:
-        mapped[v] = produced(b)
-    other = produced(t["else"])
+    def full(m0):
+        # helpers, closures, combinators and the shape predicates (`is_some`, ..) opened up: the function becomes a decision tree on the
+        # discriminant of its argument, however it is split into helpers and early returns
+        return inline.cached(F, m0, keep=lambda c: False, tag="c17-full", hof=True, thread=True,
+                             inlinable=lambda c: inline.default_inlinable(F, c, True) or (c is not None and c.body is not None and bool(inline.SHAPE_PRED_RE.match(c.name))))
+
+    def on_variant(n, d):
+        """return-value expressions of n when its (enum) argument has discriminant d: every switch on that discriminant is resolved by
+        assuming the other edges away, then constants are folded again"""
+        cut = set(); seen_sw = 0
+        for (b2, tgt, lab, exprs, t2) in switch_edges(n):
+            if n.blocks[b2].get("dead"):
+                continue
+            ex = [deep_strip(e) for e in exprs]
+            if not ex or not all(e[0] == "discr" and deps(n, [e]) <= {("param", 1)} for e in ex):
+                continue
+            seen_sw += 1
+            vals = [v for v, _ in t2["vals"]]
+            if lab.startswith("sw:"):
+                if int(lab[3:]) != d:
+                    cut.add((b2, tgt))
+            elif d in vals:
+                cut.add((b2, tgt))
+        n2 = inline.assuming(F, n, cut) if cut else n
+        fl2 = flow(n2)
+        live = cfg.reachable(n2, 0, unwind=False)
+        out = []
+        for rb in n2.exits():
+            if rb in live and not n2.blocks[rb].get("dead"):
+                out += [e for e in fl2.place({"l": 0, "p": []}, (rb, len(n2.stmts(rb)))) if not infeasible(e)]
+        return out, seen_sw
+
+    def variant_names(e, acc):
+        e = deep_strip(e)
+        if e[0] == "agg" and e[1][0] == "adt":
+            acc.append(e[1][2])
+            for x in e[2]:
+                variant_names(x, acc)
+        elif e[0] == "const" and e[4]:
+            acc.append(e[4])
+        return acc
+    nfr = full(fr)
+    nsw = 0
     for d, name in sorted(disc.items()):
-        pr = mapped.get(d, other)
-        inner = [x[1] for x in pr]
+        ex, k = on_variant(nfr, d)
+        nsw = max(nsw, k)
+        names = sorted({x for e in ex for x in variant_names(e, [])})
         if name == "Unknown":
-            okk = inner == ["Unknown"]
+            okk = bool(ex) and set(names) == {"Unknown"}
         else:
-            okk = name in inner and "Unknown" not in inner
-        ctx.check(okk, rid, "from:%s" % name, "ICause::%s maps to Cause::…%s" % (name, name), fr.span, pr)
-    ctx.check([x[1] for x in other] == ["Unknown"], rid, "from:otherwise", "any other byte maps to Cause::Unknown", fr.span, other)
+            okk = bool(ex) and name in names and "Unknown" not in names
+        ctx.check(okk, rid, "from:%s" % name, "ICause::%s maps to Cause::…%s" % (name, name), fr.span, {"produced": names, "values": [show(e)[:80] for e in ex][:4]})
+    if nsw == 0:
+        raise AnchorLost("From<ICause>: no branch on the discriminant of the argument")
+    other = [x for x in range(256) if x not in disc][:1]
+    ex, _ = on_variant(nfr, other[0])
+    names = sorted({x for e in ex for x in variant_names(e, [])})
+    ctx.check(set(names) <= {"Unknown"}, rid, "from:otherwise", "any other byte maps to Cause::Unknown (or the match is exhaustive)", fr.span, names)
     hp = F.one("signal_hook::low_level::siginfo::ICause::has_process")
     ctx.fn(hp)
     valid = {}
     for r in _tsv("siginfo_field_validity.tsv"):
         valid[norm(r[0])] = (r[1] == "yes")
     from ..flow import eval_on_discriminant
+    nhp = full(hp)
     for d, name in sorted(disc.items()):
         got = eval_on_discriminant(hp, d)
+        if got is None:
+            ex, _ = on_variant(nhp, d)
+            vals = {fold(e) if fold(e) is not None else inline._const_discr(F, e) for e in ex}
+            got = vals.pop() if len(vals) == 1 and None not in vals else None
         want = valid.get(norm(name))
         ctx.check(want is not None and got is not None and got == int(want), rid, "has_process:%s" % name,
                   "has_process(%s) = %s (kernel fills si_pid/si_uid: %s)" % (name, None if got is None else bool(got), want), hp.span, {"code": got, "oracle": want})
